@@ -286,12 +286,20 @@ public:
             auto hi_first = level(i).begin();
             auto hi_last = level(i).end();
             if (has_pgm(i)) {
-                auto range = pgm(i).search(lo);
-                lo_first = level(i).begin() + range.lo;
-                lo_last = level(i).begin() + range.hi;
-                range = pgm(i).search(hi);
-                hi_first = level(i).begin() + range.lo;
-                hi_last = level(i).begin() + range.hi;
+                // The largest value of K is reserved by the PGM-index and cannot be searched for: such an endpoint (e.g. the
+                // open-ended range(lo, max)) is located on the whole level instead
+                const K reserved = std::numeric_limits<K>::has_infinity ? std::numeric_limits<K>::infinity()
+                                                                         : std::numeric_limits<K>::max();
+                if (lo != reserved) {
+                    auto range = pgm(i).search(lo);
+                    lo_first = level(i).begin() + range.lo;
+                    lo_last = level(i).begin() + range.hi;
+                }
+                if (hi != reserved) {
+                    auto range = pgm(i).search(hi);
+                    hi_first = level(i).begin() + range.lo;
+                    hi_last = level(i).begin() + range.hi;
+                }
             }
 
             auto it_lo = lower_bound_bl(lo_first, lo_last, lo);
